@@ -54,7 +54,7 @@ def base_atoms(n=4, molecular=False):
     return a
 
 
-def build(ens, table, seed, calc_kind, restart_file):
+def build(ens, table, seed, calc_kind, restart_file, extra_kw=None):
     from quansino.integrators.displacement import Verlet
     from quansino.mc.canonical import Canonical, HamiltonianCanonical
     from quansino.mc.criteria import CanonicalCriteria, GrandCanonicalCriteria
@@ -68,6 +68,7 @@ def build(ens, table, seed, calc_kind, restart_file):
     from quansino.operations.displacement import Ball, Box, Rotation, Sphere, Translation, TranslationRotation
 
     kw = dict(seed=seed, restart_file=restart_file, logging_interval=1)
+    kw.update(extra_kw or {})
     mask = np.array([[True, False, False], [False, True, False], [False, False, True]])
     if ens == "Canonical":
         molecular = table == "disp_rotation_molecule"
@@ -314,6 +315,55 @@ def run(tier: str) -> int:
                         break
                 if len(rep.samples) < 4:
                     rep.sample({"tuple": t, "seed": seed, "restart_points": list(range(n + 1)), "history_step1": ref[0]["hist"] if ref else []})
+    # ---- the restart FILE: what a reader finds under the restart path after every step is the document whose restart was
+    # just checked -- for a path the driver opens itself, in both logging modes, fresh or already holding the (longer)
+    # document of an earlier run --------------------------------------------------------------------------------------
+    npaths = 0
+    seen_ens = set()
+    tmp2 = tempfile.mkdtemp(prefix="c07p_")
+    try:
+        for t in sorted(tuples, key=lambda x: (x["ens"], x["table"])):
+            ens, table, n = t["ens"], t["table"], t["n"]
+            if ens in seen_ens and not (tier == "thorough" and len([e for e in seen_ens if e == ens]) < 2):
+                continue
+            seen_ens.add(ens)
+            seed = seeds[0]
+            for mode in ("a", "w"):
+                cap = CaptureFile()   # (the document records the logging mode: one reference run per mode)
+                try:
+                    run_and_record(build(ens, table, seed, "harm", cap, {"logging_mode": mode}), n)
+                except Exception:  # noqa: BLE001
+                    continue   # (reported above)
+                for old in (False, True):
+                    npaths += 1
+                    path = os.path.join(tmp2, f"{ens}_{mode}_{int(old)}.json")
+                    if old:
+                        with open(path, "w") as fh:
+                            fh.write(cap.snapshots[-1] + " " * 400 + "\n")   # an earlier run's document, longer than any of this run
+                    ctx = {"ens": ens, "table": table, "n": n, "seed": seed, "mode": mode, "path_held_a_document": old}
+                    rep.count((ens, table, "restart-path", mode, old), nontrivial=True)
+                    try:
+                        mc = build(ens, table, seed, "harm", path, {"logging_mode": mode})
+                        k = 0
+                        for st in mc.irun(n):
+                            text = open(path).read()
+                            if text != cap.snapshots[k]:
+                                try:
+                                    read_json(io.StringIO(text))
+                                    what = "another-document"
+                                except Exception:  # noqa: BLE001
+                                    what = "not-one-json-document"
+                                rep.violation(f"restart-path:{what}:mode-{mode}{':over-old-document' if old else ''}", f"{ens}/{table}: after the observer calls of step {k} the restart path (logging_mode '{mode}'{', the path held an earlier document' if old else ''}) holds {len(text)} bytes, the observer's document has {len(cap.snapshots[k])}: {what}", dict(ctx, k=k, head=text[:80], tail=text[-80:]))
+                                break
+                            k += 1
+                            for _ in st:
+                                pass
+                        mc.close()
+                    except Exception as ex:  # noqa: BLE001
+                        rep.violation(f"restart-path:raises:{ens}:{type(ex).__name__}", f"{ens}/{table}: a run writing its restart file to a path (mode '{mode}') raised {type(ex).__name__}: {str(ex)[:200]}", ctx)
+    finally:
+        shutil.rmtree(tmp2, ignore_errors=True)
+    rep.add(restart_paths_read_back=npaths)
     # ---- force bias: offers restart_file but no from_dict: only "the observer can write its file" -------------
     from quansino.mc.fbmc import AdaptiveForceBias, ForceBias
 
